@@ -125,11 +125,14 @@ mutual
         Matches g (.rep a) c [.mk v n false c.effField kids]
     | rep1Aliased {a c v n kids} : c.effAlias = some (v, n) → NodeBody g (.rep1 a) kids →
         Matches g (.rep1 a) c [.mk v n false c.effField kids]
-    /-- …but a single iteration that is a single node is a unit reduction of the auxiliary symbol,
-    which the generator removes: that node itself then carries the alias -/
-    | repAliasedUnit {a c v n x} : c.effAlias = some (v, n) →
+    /-- …but when the alias arrived through the substitution of an INLINED rule (`fAlias`), the
+    generator does not see the auxiliary symbol as aliased (`remove_unit_reductions` collects aliased
+    symbols from the un-inlined productions only): a single iteration that is a single node is then a
+    removed unit reduction, and that node itself carries the alias.  An alias written directly around
+    the repeat (or around a hidden rule, below) protects the node: only the node form is a derivation. -/
+    | repAliasedUnit {a c v n x} : c.effAlias = some (v, n) → c.fAlias.isSome = true →
         Matches g a { fField := c.effField, fAlias := some (v, n) } [x] → Matches g (.rep a) c [x]
-    | rep1AliasedUnit {a c v n x} : c.effAlias = some (v, n) →
+    | rep1AliasedUnit {a c v n x} : c.effAlias = some (v, n) → c.fAlias.isSome = true →
         Matches g a { fField := c.effField, fAlias := some (v, n) } [x] → Matches g (.rep1 a) c [x]
     | field {a c n xs} : Matches g (stripField a) { c with field := some n } xs → Matches g (.field n a) c xs
     | alias {a c v n xs} : Matches g (stripAlias a) { c with alias := some (v, n) } xs → Matches g (.alias v n a) c xs
@@ -146,6 +149,7 @@ mutual
     /-- a hidden rule under an alias whose body yields a single node: the reduction is a unit reduction
     the generator removes, and that node itself carries the alias -/
     | symAliasedUnit {c x b v n y} : g.body x = some b → g.hidden x = true → nodeKind g c x = some (v, n) →
+        c.fAlias.isSome = true →
         Matches g b { fField := c.effField, fAlias := some (v, n) } [y] → Matches g (.sym x) c [y]
     /-- an external token (no rule of that name): a leaf when visible, nothing when hidden -/
     | symExternalHidden {c x} : g.body x = none → nodeKind g c x = none → Matches g (.sym x) c []
@@ -217,7 +221,8 @@ mutual
             | _ => []) ++
            (match cs with
             | x :: rest =>
-              if (matchRule g f a { fField := c.effField, fAlias := some (v, n) } [x]).any (fun rem => rem.isEmpty) = true
+              if c.fAlias.isSome = true ∧
+                  (matchRule g f a { fField := c.effField, fAlias := some (v, n) } [x]).any (fun rem => rem.isEmpty) = true
               then [rest] else []
             | [] => []))
       | .rep1 a =>
@@ -230,7 +235,8 @@ mutual
           | _ => []) ++
           (match cs with
             | x :: rest =>
-              if (matchRule g f a { fField := c.effField, fAlias := some (v, n) } [x]).any (fun rem => rem.isEmpty) = true
+              if c.fAlias.isSome = true ∧
+                  (matchRule g f a { fField := c.effField, fAlias := some (v, n) } [x]).any (fun rem => rem.isEmpty) = true
               then [rest] else []
             | [] => [])
       | .field n a => matchRule g f (stripField a) { c with field := some n } cs
@@ -256,7 +262,7 @@ mutual
             | _ => []) ++
             (match cs with
             | y :: rest =>
-              if g.hidden x = true ∧
+              if g.hidden x = true ∧ c.fAlias.isSome = true ∧
                   (matchRule g f b { fField := c.effField, fAlias := some (k, n) } [y]).any (fun rem => rem.isEmpty) = true
               then [rest] else []
             | [] => [])
